@@ -16,21 +16,22 @@ Mirrors, function by function and with the same order of effects,
 
 The model describes the code that exists (after the repairs aad9766 `change_ref` registers the
 new reference first, and 626845c `_can_update_other` applies the rule of `_can_add_other`).
-Six behaviours of that code break the property (C18) and are reproduced here as they are;
+Four behaviours of that code break the property (C18) and are reproduced here as they are;
 they are named by the `trig…` predicates at the end of the file.
 
 Closed models.  `System.close_model` deletes the model's specs and takes the model out of the
 registry - nothing else: the `Model` object and its spaces stay fully usable through the handles
 the user holds (references, `_valid_to_refs`, `new_pandas` … all work as before; a second
 `close()` is a no-op since 0035a5d).  The model does the same: every operation on a closed model
-is performed as on an open one.  Only handles of DELETED SPACES are dead (`DeletedObjectError`,
+is performed as on an open one - except the creation of an IOSpec, which `EditableParentImpl._new_spec`
+refuses for a model that is not registered (it would stay in the IOManager for ever).  Only handles of DELETED SPACES are dead (`DeletedObjectError`,
 `Rej.dead`, state unchanged), and so are operations that name a model or space that never
 existed (there is no handle to call).
 
-Paths.  The key of an io is `(model, pathlib.Path(path))`: pathlib drops empty components and
-`.` but keeps `..` (`pathKey`).  The FILE a relative path denotes under the model's folder is
-given by the lexical normal form (`normPath`, `os.path.normpath`): `sub/../a.csv` is `a.csv`.
-`Spec.path` is the key as the code holds it (`spec.path.as_posix()`).
+Paths.  The key of an io is `(model, pathlib.Path(os.path.normpath(path)))` (`IOManager.new_spec`,
+`update_path`): the lexical normal form (`normPath`) - `./a.csv` and `sub/../a.csv` are `a.csv`, so
+different spellings of one file are one key.  `Spec.path` is the key as the code holds it
+(`spec.path.as_posix()`); `pathKey` (what `pathlib` alone does) is kept for reference.
 
 Representation.
 * A Python object is a `Val`: a pandas object, another non-Interface object, or a modelx
@@ -508,7 +509,9 @@ def stepR (kw : List String) (st : St) : Op → Res
         || !isValidName kw name then (st, .error .value)
     else ({ st with cells := st.cells ++ [(o, name, scalar)] }, .ok ())
   | .newPandas o name path csv sheet data =>
-    if !ownerLive st o then (st, .error .dead) else newPandas kw st o name (pathKey path) csv sheet data
+    if !ownerLive st o then (st, .error .dead)
+    else if st.closed.contains o.model then (st, .error .value)   -- `_new_spec`: the model is closed
+    else newPandas kw st o name (normPath path) csv sheet data
   | .bind o name v =>
     if !ownerLive st o then (st, .error .dead) else setAttr kw st o name v
   | .del o name =>
@@ -518,7 +521,7 @@ def stepR (kw : List String) (st : St) : Op → Res
   | .setSheet m v sheet =>
     if !modelKnown st m then (st, .error .dead) else setSheet st m v sheet
   | .setPath m v path =>
-    if !modelKnown st m then (st, .error .dead) else setPath st m v (pathKey path)
+    if !modelKnown st m then (st, .error .dead) else setPath st m v (normPath path)
   | .delSpec m v =>
     if !modelKnown st m then (st, .error .dead) else delSpecOf st m v
   | .close m =>
@@ -530,7 +533,7 @@ def step (kw : List String) (st : St) (op : Op) : St := (stepR kw st op).1
 
 def run (kw : List String) (st : St) (ops : List Op) : St := ops.foldl (step kw) st
 
-/-! ## The six triggers (behaviours of the code that break C18), as decidable predicates on
+/-! ## The four triggers (behaviours of the code that break C18), as decidable predicates on
 the state before an operation -/
 
 /-- C18-cells-name: `new_pandas(name, …)` where `name` is a scalar cells of the space –
@@ -559,30 +562,14 @@ def trigUpdateOnto (st : St) : Op → Bool
   | .update m old new => old != new && (alookup st.v2r (m, new)).isSome
   | _ => false
 
-/-- C18-closed-model-new-spec: `new_pandas` through the handle of a CLOSED model (or of one of
-its spaces) is accepted like any other; the io it creates stays in `IOManager.ios` for ever (a
-second `close()` returns at once) -/
-def trigClosedNew (st : St) : Op → Bool
-  | .newPandas o _ _ _ _ _ => st.closed.contains o.model
-  | _ => false
-
 /-- the io key an operation asks for -/
 def opKey : Op → Option (Nat × String)
-  | .newPandas o _ path _ _ _ => some (o.model, pathKey path)
-  | .setPath m _ path => some (m, pathKey path)
+  | .newPandas o _ path _ _ _ => some (o.model, normPath path)
+  | .setPath m _ path => some (m, normPath path)
   | _ => none
-
-/-- C18-path-alias: the operation asks for a key that another spec of the model holds in another
-SPELLING (`a.csv` / `sub/../a.csv`): the keys differ, so the request is not refused, the file is
-the same -/
-def trigPathAlias (st : St) (op : Op) : Bool :=
-  match opKey op with
-  | some (m, k) => st.specs.any (fun σ => σ.group = m ∧ normPath σ.path = normPath k ∧ σ.path ≠ k)
-  | none => false
 
 def clean (st : St) (op : Op) : Bool :=
   !trigCellsName st op && !trigDoubleSpec st op && !trigDirtyDelete st op && !trigUpdateOnto st op
-    && !trigClosedNew st op && !trigPathAlias st op
 
 /-- no operation of the history hits a trigger -/
 def AllClean (kw : List String) : St → List Op → Prop
